@@ -1,8 +1,14 @@
 import RisorModel.Util
-/-! Line-protocol front end of the C01 model (stub until the model exists). -/
+import RisorModel.C01.Decode
+/-! Line-protocol front end of the C01 model.
+  `eval <sexp>` → `ok <value> <stdout-hex>` | `err <class> <stdout-hex>` | `oof` | `unsupported <what>` -/
 namespace Risor.C01
 
 def handle : List String → String
-  | _ => "error\tnot-implemented"
+  | ["eval", sx] =>
+    match decodeProg sx with
+    | none => "error\tcannot decode the program"
+    | some p => showOutcome (runProg 200000 p)
+  | _ => "error\tunknown-request"
 
 end Risor.C01
